@@ -284,8 +284,11 @@ func classReps(re *syntax.Regexp) []string {
 	return uniq(out)
 }
 
-// crsInputs derives the input set of one CRS pattern.
-func crsInputs(pattern string, multiline, thorough bool) []string {
+// derivedInputs derives an input set from the pattern itself: the strings of a
+// walk of its AST, padded, and their one-byte deletions, case flips, newline
+// insertions (thorough: also substitutions by a foreign / invalid byte and all
+// two-byte deletions of short strings).
+func derivedInputs(pattern string, multiline, thorough bool) []string {
 	flags := "(?s)"
 	if multiline {
 		flags = "(?sm)"
@@ -365,6 +368,6 @@ func runCRS(rs *runState, idx *int) {
 			continue
 		}
 		c.Count("crs_patterns", 1)
-		rs.checkPattern("crs", p, crsInputs(p, rs.multiline, c.Thorough()))
+		rs.checkPattern("crs", p, derivedInputs(p, rs.multiline, c.Thorough()))
 	}
 }
